@@ -154,3 +154,12 @@ Theorem C14_json_plain_string_is_pounds : forall (valid_cur : text -> bool) d, d
   read_money valid_cur (j_dec d) = JOk {| m_amt := d; m_cur := GBP |}.
 Proof. exact read_money_plain. Qed.
 Print Assumptions C14_json_plain_string_is_pounds.
+
+(* unknown keys are ignored by the reader: a key that is none of its nine, appended to a transaction object that does not already
+   have it, changes nothing - whatever value it carries *)
+Theorem C14_json_unknown_key_ignored : forall (valid_cur : text -> bool) fs k v,
+  unknown_key k = true -> has_key k fs = false -> read_txn valid_cur (JObj (fs ++ [(k, v)])) = read_txn valid_cur (JObj fs).
+Proof. exact json_unknown_key_ignored. Qed.
+Print Assumptions C14_json_unknown_key_ignored.
+Example C14_unknown_key_applies : unknown_key (T "note") = true /\ unknown_key (T "Amount") = true /\ unknown_key (T "amount") = false.
+Proof. repeat split; reflexivity. Qed.
